@@ -119,6 +119,17 @@ def cases(tier: str, rng: random.Random) -> List[Case]:
                             kv2 = ([P(ok_, G.I(0))] + kv2) if first else (kv2 + [P(ok_, G.I(0))])
                             schema = [P(G.S(n), P(INT, r)) for n, r in flds]
                             out.append(std_case(("ClassV", (rk,), N(cid), schema, None, None, strict, None), ("VDict", kv2), m, tag="a:odd-extra-key"))
+    # (a3) record-class validators behind the user's own coercer (dicts pass through, None becomes {}): unknown keys,
+    #      missing keys and values are judged on the coerced mapping exactly as without a coercer
+    for cid, (rk, flds) in G.CLASS_SCHEMAS.items():
+        schema = [P(G.S(n), P(INT, r)) for n, r in flds]
+        full = [P(G.S(n), G.I(4)) for n, _ in flds]
+        for strict in (True, False):
+            v = ("ClassV", (rk,), N(cid), schema, None, None, strict, Some(("CoUser", N(5))))
+            for x in (("VDict", full), ("VDict", full + [P(G.S("zz"), G.I(0))]), ("VDict", [P(G.S("zz"), G.I(0))] + full), ("VDict", full[1:] + [P(G.S("zz"), G.I(0))]),
+                      ("VDict", [P(G.S(n), G.S("no")) for n, _ in flds] + [P(G.S("zz"), G.I(0))]), G.NONE, ("VDict", []), G.I(1), ("VList", [])):
+                for m in ("sync", "async"):
+                    out.append(std_case(v, x, m, tag="a:class-user-coercer"))
     # (b) non-dict inputs, dict subclasses, target-class instances, other-class instances
     insts = [("VObj", N(G.C_DATA), [P(G.S("a"), G.I(4)), P(G.S("b"), G.I(5))]),
              ("VObj", N(G.C_DATA), [P(G.S("a"), G.S("no")), P(G.S("b"), G.I(5))]),
